@@ -113,6 +113,8 @@ def run_unit(unit, repo, outdir, extra_args=(), timeout=600):
         return res
     # obligations: labelled/auto clauses + per function body-safety + termination
     for c in meta['clauses']:
+        if c.get('clause_kind') in ('requires', 'decreases', 'recommends'):
+            continue  # preconditions are obligations of the CALLERS (body_safety); decreases is counted as `termination`
         res.obligations.append(dict(name='%s.%s' % (c['fn'], c['label']), fn=c['fn'], props=c['props'], kind=c['kind'],
                                     text=c['text'], discharged=True))
     for f in meta['functions']:
